@@ -1,16 +1,18 @@
 #!/bin/sh
 # usage: try_mutant.sh <dir with patch.diff demo.py> <Cnn> [tier]   - confirms a seeded change and runs a check against it
-# Applies the patch to /repo, runs the repo tests + the demo + the check, then ALWAYS reverts /repo.
+# Works on a SCRATCH worktree of /repo's HEAD (PYMC_REPO), never on /repo itself.
 D="$1"; C="$2"; T="${3:-quick}"
-cd /repo || exit 2
-git diff --quiet || { echo "/repo has uncommitted changes"; exit 2; }
-echo "== clean tree: demo"; PYTHONDONTWRITEBYTECODE=1 /venv/bin/python "$D/demo.py" > /tmp/tm_demo0.txt 2>&1; echo "demo exit (clean) = $?"
-git apply "$D/patch.diff" || { echo "patch does not apply"; git checkout -- .; exit 2; }
-trap 'cd /repo && git checkout -- . ' EXIT INT TERM
-echo "== mutated tree: tests"; PYTHONDONTWRITEBYTECODE=1 /venv/bin/python -m pytest -q -p no:cacheprovider 2>&1 | tail -1
-echo "== mutated tree: demo"; PYTHONDONTWRITEBYTECODE=1 /venv/bin/python "$D/demo.py" > /tmp/tm_demo1.txt 2>&1; echo "demo exit (mutated) = $?"; tail -3 /tmp/tm_demo1.txt
+W=/var/tmp/pymc_try_wt_$$
+git -C /repo worktree add --detach "$W" HEAD -q || exit 2
+trap 'git -C /repo worktree remove --force "$W"' EXIT INT TERM
+cd "$W"
+echo "== clean tree: demo"; PYTHONDONTWRITEBYTECODE=1 /venv/bin/python "$D/demo.py" > /tmp/tm_demo0_$$.txt 2>&1; echo "demo exit (clean) = $?"
+git apply "$D/patch.diff" || { echo "patch does not apply"; exit 2; }
+echo "== mutated tree: tests"; PYTHONDONTWRITEBYTECODE=1 /venv/bin/python -m pytest -q -p no:cacheprovider pyModelChecking/tests 2>&1 | tail -1
+echo "== mutated tree: demo"; PYTHONDONTWRITEBYTECODE=1 /venv/bin/python "$D/demo.py" > /tmp/tm_demo1_$$.txt 2>&1; echo "demo exit (mutated) = $?"; tail -3 /tmp/tm_demo1_$$.txt
 echo "== mutated tree: check $C $T"
-cd /verif && ./check "$C" --tier "$T" > /tmp/tm_check.txt 2>&1; echo "check exit = $?"
-grep -c "^VIOLATION" /tmp/tm_check.txt | sed 's/^/VIOLATION lines: /'
-grep -A1 "^VIOLATION" /tmp/tm_check.txt | head -4 | cut -c1-300
-grep "MACHINERY" /tmp/tm_check.txt | head -3
+cd /verif && PYMC_REPO="$W" PYMC_VERIF_NOEVIDENCE=1 ./check "$C" --tier "$T" > /tmp/tm_check_$$.txt 2>&1; echo "check exit = $?"
+grep -c "^VIOLATION" /tmp/tm_check_$$.txt | sed 's/^/VIOLATION lines: /'
+grep -A1 "^VIOLATION" /tmp/tm_check_$$.txt | grep "^  " | head -2 | cut -c1-300
+grep "MACHINERY" /tmp/tm_check_$$.txt | head -3
+rm -f /tmp/tm_check_$$.txt /tmp/tm_demo0_$$.txt /tmp/tm_demo1_$$.txt
